@@ -101,7 +101,8 @@ fn reverb_b(s: &Value) -> ReverbBuilder {
 fn comp_b(s: &Value) -> CompressorBuilder {
 	CompressorBuilder::new()
 		.threshold(f(s, "th"))
-		.ratio(f(s, "ratio"))
+		// 1e300 and above stands for an infinite ratio (a limiter; JSON has no infinity)
+		.ratio(if f(s, "ratio") >= 1e300 { f64::INFINITY } else { f(s, "ratio") })
 		.attack_duration(Duration::from_nanos(u(s, "att_ns")))
 		.release_duration(Duration::from_nanos(u(s, "rel_ns")))
 		.makeup_gain(Decibels(f(s, "makeup") as f32))
